@@ -572,24 +572,22 @@ func c08Addressing(c *Ctx) {
 			r.Unknown("C08/R4", "node."+spec.fn+":dispatch", "one dispatch site", c.Pos(fn.Pos()), sprintf("%d", len(calls)))
 			continue
 		}
-		var okEdges []ssax.Edge
+		// "RecipientAddr is empty" in any spelling (== "", len(...) == 0, len(...) < 1, negated forms), or equal to the own name
+		isRecipient := func(p string) bool { return strings.HasSuffix(p, ".RecipientAddr") }
+		okEdges := emptyEdges(fn, isRecipient)
+		nEmpty, nOwn := len(okEdges), 0
 		for _, cd := range ssax.Conds(fn) {
 			if cd.Op != token.EQL && cd.Op != token.NEQ {
 				continue
 			}
 			a, b := ssax.Path(cd.X), ssax.Path(cd.Y)
-			if strings.HasSuffix(a, ".RecipientAddr") || strings.HasSuffix(b, ".RecipientAddr") {
-				other := b
-				if strings.HasSuffix(b, ".RecipientAddr") {
-					other = a
-				}
-				if other == `""` || strings.HasSuffix(other, "GetUsername()") {
-					e, _ := cd.EdgeWhere(token.EQL)
-					okEdges = append(okEdges, e)
-				}
+			if (isRecipient(a) && strings.HasSuffix(b, "GetUsername()")) || (isRecipient(b) && strings.HasSuffix(a, "GetUsername()")) {
+				e, _ := cd.EdgeWhere(token.EQL)
+				okEdges = append(okEdges, e)
+				nOwn++
 			}
 		}
-		r.Check(len(okEdges) == 2 && !ssax.ReachableAvoiding(fn, calls[0], okEdges, nil), "C08/R4", "node."+spec.fn+":addressed-only", "a message is handled only if RecipientAddr is empty or equals this node's user name", c.PosOf(calls[0]),
+		r.Check(nEmpty >= 1 && nOwn >= 1 && !ssax.ReachableAvoiding(fn, calls[0], okEdges, nil), "C08/R4", "node."+spec.fn+":addressed-only", "a message is handled only if RecipientAddr is empty or equals this node's user name", c.PosOf(calls[0]),
 			sprintf("%d recipient tests recognised; the handler is reachable without passing one of them: messages addressed to other participants (private deals) would change this node's view", len(okEdges)))
 	}
 }
